@@ -1,22 +1,5 @@
 // ---- db unit: trusted wrappers (R9) and std specs --------------------------------------------
 verus! {
-/// utf-8 encoding of a string's characters (uninterpreted; str::as_bytes / from_utf8_unchecked are its two directions)
-pub uninterp spec fn vx_utf8(s: Seq<char>) -> Seq<u8>;
-/// "n2db" is four ASCII bytes
-pub broadcast axiom fn ax_sig_len()
-    ensures #[trigger] vx_utf8("n2db"@).len() == 4;
-pub assume_specification [std::string::String::from_utf8_unchecked] (v: std::vec::Vec<u8>) -> (r: std::string::String)
-    ensures vx_utf8(r@) == v@;
-/// R9 wrappers for `str::len` / `str::as_bytes` (vstd's own str::len spec says nothing about the byte length)
-pub trait VxStr {
-    fn vx_len(&self) -> (r: usize);
-    fn vx_as_bytes(&self) -> (r: &[u8]);
-}
-impl VxStr for str {
-    #[verifier::external_body] fn vx_len(&self) -> (r: usize) ensures r == vx_utf8(self@).len() { self.len() }
-    #[verifier::external_body] fn vx_as_bytes(&self) -> (r: &[u8]) ensures r@ == vx_utf8(self@) { self.as_bytes() }
-}
-
 pub trait VxLeBytes<const N: usize>: Sized {
     spec fn vx_enc(self) -> Seq<u8>;
     spec fn vx_dec(b: Seq<u8>) -> Self;
